@@ -243,7 +243,7 @@ fn gen_ising(g: &mut SplitMix64, rng: &SharedRng) -> (Smp, String) {
 
 /// a random valid interaction: (full matrix over outs++ins, vars, use the diagonal constructor)
 fn gen_interaction(g: &mut SplitMix64, nvars: usize) -> (Vec<f64>, Vec<usize>, bool) {
-    let k = if nvars >= 2 && g.coin() { 2 } else { 1 };
+    let k = gen_arity(g, nvars);
     let mut vars: Vec<usize> = vec![];
     while vars.len() < k {
         let v = g.below(nvars as u64) as usize;
@@ -252,6 +252,15 @@ fn gen_interaction(g: &mut SplitMix64, nvars: usize) -> (Vec<f64>, Vec<usize>, b
         }
     }
     let dim = 1usize << k;
+    if k >= 3 {
+        // many-body diagonal term through `make_diagonal_interaction`, maximum at a controlled sub-state
+        let d = gen_multi_diag(g, k);
+        let mut mat = vec![0.0; dim * dim];
+        for s in 0..dim {
+            mat[s * dim + s] = d[s];
+        }
+        return (mat, vars, true);
+    }
     let diag_ctor = g.chance(1, 3);
     let constant = !diag_ctor && k == 1 && g.chance(1, 2);
     let cw = *g.pick(&[0.5, 1.0, 2.0]);
@@ -283,7 +292,7 @@ fn add_interaction(q: &mut GenQ, mat: &[f64], vars: &[usize], diag_ctor: bool) -
 }
 
 fn gen_generic(g: &mut SplitMix64, rng: &SharedRng) -> Smp {
-    let nvars = g.range(1, 3) as usize;
+    let nvars = g.range(1, 4) as usize;
     let state: Vec<bool> = (0..nvars).map(|_| g.coin()).collect();
     let mut q = GenQ::new_with_state(nvars, rng.clone(), state, g.coin());
     let mut vars_list = vec![];
@@ -298,6 +307,45 @@ fn gen_generic(g: &mut SplitMix64, rng: &SharedRng) -> Smp {
     for _ in 0..g.range(1, 3) {
         let (mat, vars, d) = gen_interaction(g, nvars);
         add_interaction(&mut q, &mat, &vars, d).unwrap();
+        vars_list.push(vars);
+    }
+    Smp::Gen(q, vars_list)
+}
+
+/// generic sampler with one diagonal term on 3 or 4 variables whose unique maximum sits at a uniformly chosen
+/// sub-state, started in that sub-state (transverse terms only on some variables, so it often stays there)
+fn gen_generic_multi(g: &mut SplitMix64, rng: &SharedRng) -> Smp {
+    let nvars = g.range(3, 4) as usize;
+    let k = if nvars == 4 && g.coin() { 4 } else { 3 };
+    let mut vars: Vec<usize> = vec![];
+    while vars.len() < k {
+        let v = g.below(nvars as u64) as usize;
+        if !vars.contains(&v) {
+            vars.push(v);
+        }
+    }
+    let dim = 1usize << k;
+    let top = *g.pick(&[1.5, 2.0, 3.0, 4.0]);
+    let m = g.below(dim as u64) as usize;
+    let d: Vec<f64> = (0..dim).map(|s| if s == m { top } else { *g.pick(&[0.0, 0.125, 0.25, 0.5, 0.75, 1.0]) }).collect();
+    stat(&format!("multivar_bond_k{}_argmax_{}", k, m), 1);
+    let mut state: Vec<bool> = (0..nvars).map(|_| g.coin()).collect();
+    for (pos, v) in vars.iter().enumerate() {
+        state[*v] = (m >> (k - 1 - pos)) & 1 == 1;
+    }
+    let mut q = GenQ::new_with_state(nvars, rng.clone(), state, g.coin());
+    let mut vars_list = vec![];
+    q.make_diagonal_interaction(d, vars.clone()).unwrap();
+    vars_list.push(vars);
+    for v in 0..nvars {
+        if g.chance(1, 3) {
+            q.make_interaction(vec![0.5; 4], vec![v]).unwrap();
+            vars_list.push(vec![v]);
+        }
+    }
+    if g.coin() {
+        let (mat, vars, dg) = gen_interaction(g, nvars);
+        add_interaction(&mut q, &mat, &vars, dg).unwrap();
         vars_list.push(vars);
     }
     Smp::Gen(q, vars_list)
@@ -318,7 +366,7 @@ fn tables(g: &mut SplitMix64, ncases: usize) {
     for _ in 0..ncases {
         // ---- generic sampler: random operation sequence
         let rng = SharedRng::new(g.next());
-        let nvars = g.range(1, 3) as usize;
+        let nvars = g.range(1, 4) as usize;
         let mut q = GenQ::new_with_state(nvars, rng.clone(), vec![false; nvars], false);
         let mut vars_list: Vec<Vec<usize>> = vec![];
         let nops = g.range(2, 12) as usize;
@@ -445,6 +493,8 @@ fn make_sampler(g: &mut SplitMix64, rng: &SharedRng) -> (Smp, &'static str) {
             }
         }
         (s, if rvb { "ising_rvb" } else { "ising" })
+    } else if g.chance(1, 3) {
+        (gen_generic_multi(g, rng), "generic_manybody")
     } else {
         (gen_generic(g, rng), "generic")
     }
@@ -544,7 +594,20 @@ fn prob_case(g: &mut SplitMix64) -> bool {
     if cands.is_empty() {
         return false;
     }
-    let b = *g.pick(&cands);
+    let multi: Vec<usize> = cands
+        .iter()
+        .cloned()
+        .filter(|b| {
+            let tb = &cfg.bonds[*b];
+            tb.vars.len() >= 3 && unique_argmax(tb) == Some(bit_index(substate(&st_k, &tb.vars).iter()))
+        })
+        .collect();
+    let b = if !multi.is_empty() && g.chance(3, 4) {
+        stat(&format!("prob_multivar_at_argmax_{}", bit_index(substate(&st_k, &cfg.bonds[multi[0]].vars).iter())), 1);
+        multi[0]
+    } else {
+        *g.pick(&cands)
+    };
     let w = diag_weight(&cfg.bonds[b], &substate(&st_k, &cfg.bonds[b].vars));
     // prefix: one word per visited slot before k; 0 removes a diagonal op, MAX keeps / leaves empty
     let mut prefix = vec![];
